@@ -29,7 +29,7 @@
    node-level right-hand sides (individual based, pair based, heterogeneous pairwise,
    effective degree) over the hand-written models of Model/Rhs2D.v, which are tied to
    the code by point evaluation on every run (harness/rhs2_lib.py). *)
-From EoNV Require Import Prelude Graph Aux Vec IC Wrappers VecP ICP ICHand ICPair ICEd ICEbcm Rhs ICConserve Rhs2D Rhs2DP.
+From EoNV Require Import Prelude Graph Aux Vec IC Wrappers VecP ICP ICHand ICPair ICEd ICEbcm Rhs ICConserve Rhs2D Rhs2DP Rhs2 Rhs2GenP.
 
 (* ---------- non-vacuity of the hypotheses ---------- *)
 Example C06_wf_example :
@@ -530,3 +530,54 @@ Proof.
   - intro H. vm_compute in H. discriminate.
 Qed.
 Print Assumptions conserve_SIS_effective_degree_nonvacuous.
+
+(* ====================================================================== *)
+(* the hand-written models ARE the code: definitions generated from the    *)
+(* source on every run (Gen/Rhs2.v, translate/rhs2d2v.py, fail-closed)     *)
+(* equal the models of Model/Rhs2D.v that the theorems above are about     *)
+(* ====================================================================== *)
+(* Domain: shapes consistent (where numpy would raise nothing is claimed).  Pair based: `pb_wfb G nodelist idx`
+   (boolean) = G.order() = len(nodelist), index_of_node[nodelist[i]] = i, adjacency lists duplicate-free and inside
+   nodelist -- what every caller in analytic.py establishes (index_of_node = {node: i for i, node in
+   enumerate(nodelist)} over a simple graph); under it the code's accumulation `dA[index_of_node[u], ..] += ..`
+   over nested neighbour loops writes every cell from exactly one (u, v) and equals the closed form of the model. *)
+Theorem C06_generated_SIS_individual_based : forall Y t G nodelist idx tr rc,
+  length Y = length nodelist ->
+  veq (g_dSIS_individual_based Y t G nodelist idx tr rc) (dSIS_individual_based G nodelist idx tr rc Y t).
+Proof. exact gen_dSIS_individual_based. Qed.
+Theorem C06_generated_SIR_individual_based : forall V t G nodelist idx tr rc,
+  length V = (2 * length nodelist)%nat ->
+  veq (g_dSIR_individual_based V t G nodelist idx tr rc) (dSIR_individual_based G nodelist idx tr rc V t).
+Proof. exact gen_dSIR_individual_based. Qed.
+Theorem C06_generated_SIS_pair_based : forall G nodelist idx tr rc, pb_wfb G nodelist idx = true -> forall V t,
+  veq (g_dSIS_pair_based V t G nodelist idx tr rc) (dSIS_pair_based G nodelist idx tr rc V t).
+Proof. exact gen_dSIS_pair_based. Qed.
+Theorem C06_generated_SIR_pair_based : forall G nodelist idx tr rc, pb_wfb G nodelist idx = true -> forall V t,
+  veq (g_dSIR_pair_based V t G nodelist idx tr rc) (dSIR_pair_based G nodelist idx tr rc V t).
+Proof. exact gen_dSIR_pair_based. Qed.
+Theorem C06_generated_SIS_heterogeneous_pairwise : forall X t Nk NkNl tau gamma Ks,
+  length Nk = length Ks ->
+  veq (g_dSIS_heterogeneous_pairwise X t Nk NkNl tau gamma Ks) (dSIS_heterogeneous_pairwise X Nk NkNl tau gamma Ks t).
+Proof. exact gen_dSIS_heterogeneous_pairwise. Qed.
+Theorem C06_generated_SIR_heterogeneous_pairwise : forall X t tau gamma Nk Ks,
+  veq (g_dSIR_heterogeneous_pairwise X t tau gamma Nk Ks) (dSIR_heterogeneous_pairwise X tau gamma Ks t).
+Proof. exact gen_dSIR_heterogeneous_pairwise. Qed.
+Theorem C06_generated_SIS_effective_degree : forall X t r c tau gamma,
+  veq (g_dSIS_effective_degree X t (r, c) tau gamma) (dSIS_effective_degree X r c tau gamma t).
+Proof. exact gen_dSIS_effective_degree. Qed.
+Theorem C06_generated_SIR_effective_degree : forall X t N r c tau gamma,
+  length X = (r * c + 1)%nat ->
+  veq (g_dSIR_effective_degree X t N (r, c) tau gamma) (dSIR_effective_degree X N r c tau gamma t).
+Proof. exact gen_dSIR_effective_degree. Qed.
+(* non-vacuity of pb_wfb: the triangle with nodelist = its nodes and idx the position *)
+Example C06_generated_wf_nonvacuous : pb_wfb tri_graph tri_nodes tri_idx = true.
+Proof. vm_compute. reflexivity. Qed.
+Print Assumptions C06_generated_SIS_individual_based.
+Print Assumptions C06_generated_SIR_individual_based.
+Print Assumptions C06_generated_SIS_pair_based.
+Print Assumptions C06_generated_SIR_pair_based.
+Print Assumptions C06_generated_SIS_heterogeneous_pairwise.
+Print Assumptions C06_generated_SIR_heterogeneous_pairwise.
+Print Assumptions C06_generated_SIS_effective_degree.
+Print Assumptions C06_generated_SIR_effective_degree.
+Print Assumptions C06_generated_wf_nonvacuous.
